@@ -1,21 +1,9 @@
 import Drv.EvalCase
+import Drv.C15Parse
 import VrpModel.C15
-open Lean Drv Route C06 C15 Drv.EvalCase
+open Lean Drv Route C06 C15 Drv.EvalCase Drv.C15Parse
 
 namespace Drv.C15
-
-def parseRouteCtx (m : Mat) (obj : Objective) (j : Json) : R Ctx := do
-  -- reuse the single-route parser by assembling the fields it expects
-  let full := Json.mkObj [("n", jNat m.n), ("dur", jList jInt m.dur), ("dist", jList jInt m.dist),
-    ("veh", ← fld j "veh"), ("cap", ← fld j "cap"), ("costs", ← fld j "costs"),
-    ("obj", Json.str (if obj == .cost then "cost" else "distance")), ("tour", ← fld j "tour")]
-  parseCtx full
-
-def jCost : Option (List Int) → Json
-  | none => Json.null
-  | some c => jList jInt c
-
-def parseCost (j : Json) : R (Option (List Int)) := optOf (listOf asInt) j
 
 def handle (j : Json) : R (List (String × Json)) := do
   let m : Mat := { n := ← natF j "n", dur := ← listF asInt j "dur", dist := ← listF asInt j "dist" }
